@@ -142,6 +142,17 @@ def classify(d, meta, genpath):
                 if e and e.get('fn'):
                     fn = e['fn']
                     break
+    if not labels and kind == 'postcondition' and fn is None:
+        # the violated clause lives in vstd (e.g. OrdSpecImpl's implicit postcondition of `cmp`): attribute by the function body span
+        for sp in d.get('spans', []):
+            if os.path.basename(sp.get('file_name', '')) == base:
+                for ln in range(sp['line_start'], sp['line_end'] + 1):
+                    e = lm.get(str(ln)) or lm.get(ln)
+                    if e and e.get('fn'):
+                        fn = e['fn']
+                        break
+    if not labels and fn_short(fn) in (meta.get('fn_labels') or {}):
+        labels = list(meta['fn_labels'][fn_short(fn)])
     return dict(kind=kind, message=msg, labels=sorted(set(labels)), fn=fn_short(fn), line=prim_line,
                 injected=prim_inj, prelude_clause=clause_in_prelude, text=clause_text,
                 rendered=d.get('rendered', ''))
@@ -166,6 +177,9 @@ def unit_labels(meta):
     for ln, e in meta['linemap'].items():
         for l in e.get('labels', []):
             out.setdefault((fn_short(e.get('fn')) or '<lemma/prelude>', l), []).append(int(ln))
+    for f, ls in (meta.get('fn_labels') or {}).items():
+        for l in ls:
+            out.setdefault((f, l), []).append(0)
     return out
 
 
@@ -565,14 +579,14 @@ def run_kani(h, playback=False):
     p = subprocess.run(cmd, stdout=subprocess.PIPE, stderr=subprocess.STDOUT, text=True, env=env)
     out = p.stdout
     wall = time.time() - t0
-    if 'VERIFICATION:- SUCCESSFUL' in out:
-        status = 'ok'
-    elif 'VERIFICATION:- FAILED' in out:
-        status = 'failed'
-    else:
-        status = 'error'
     failed = re.findall(r'Failed Checks: (.*)', out)
     m = re.search(r'\*\* (\d+) of (\d+) failed', out)
+    if 'VERIFICATION:- SUCCESSFUL' in out:
+        status = 'ok'
+    elif 'VERIFICATION:- FAILED' in out and m and int(m.group(1)) > 0 and 'out of memory' not in out:
+        status = 'failed'  # a real refutation: CBMC reports failed checks (never a timeout / out-of-memory abort)
+    else:
+        status = 'error'
     vt = re.search(r'Verification Time: ([0-9.]+)s', out)
     pb = ''
     if playback:
